@@ -14,7 +14,7 @@ from ..execu import run
 from ..runner import short
 
 ID = "C17"
-N = {"quick": 1500, "thorough": 60000}
+N = {"quick": 5000, "thorough": 60000}
 TIME_BUDGET = {"quick": 50, "thorough": 540}
 MIN_NONTRIVIAL = {"quick": 200, "thorough": 2000}
 RULE = ("cases = a system shape: 2-4 classes, each with an int leaf and 1-3 reference fields (target = itself or another class; "
